@@ -13,6 +13,7 @@ import (
 	"os"
 	"runtime"
 	"sort"
+	"strconv"
 	"strings"
 	"time"
 
@@ -24,7 +25,7 @@ import (
 // of the input length satisfies the property; B only has to be generous enough not to
 // convict a re-tuned period, and small enough that "never polls" is convicted on the
 // inputs generated here (which reach 10*B tokens).
-const B = 4096
+var B = 4096 // ZZ_CANCELSIM_B overrides it for experiments (see main)
 
 // ---------------------------------------------------------------------------------
 // simulated context
@@ -181,17 +182,29 @@ type event struct {
 type itemSpan struct {
 	off, end int
 	toks     int
-	intact   bool // neither damaged nor next to a damaged item
+	intact   bool   // not damaged
+	sig      uint64 // signature of the events an undamaged parse reports inside this item (0: unknown)
+}
+
+// evSig folds one event, relative to its item, into an item's event signature.
+func evSig(acc uint64, t, flags, relOff, relEnd int) uint64 {
+	h := acc*1099511628211 + 0x9e3779b97f4a7c15
+	h ^= uint64(t)<<40 ^ uint64(flags)<<32 ^ uint64(relOff)<<16 ^ uint64(relEnd)
+	return h * 0xbf58476d1ce4e5b9
+}
+
+type itemAcc struct {
+	sig        uint64
+	beforeFire bool // some event of the item was reported before the canceller fired
 }
 
 type recorder struct {
 	ctx      *simCtx
-	// bounded-stop oracle: spans of intact items -> their token counts. An event whose
-	// range is exactly such a span proves that all tokens of that item were shifted.
-	spans     map[uint64]int32
-	seen      map[uint64]bool
-	matched   int // intact items reported after the canceller fired
-	shiftedLB int // lower bound of tokens shifted after the canceller fired
+	// bounded-stop oracle: the items of the input (sorted by offset) and, per item, the
+	// signature of the events reported inside it so far. An intact item whose events are
+	// exactly those of an undamaged parse was parsed normally: all its tokens were shifted.
+	items []itemSpan
+	acc   map[int]*itemAcc
 	ref      []event // nil in the reference run
 	ev       []event // filled in the reference run only
 	n        int
@@ -213,21 +226,46 @@ func (r *recorder) add(e event) {
 	if e.end > r.maxEnd {
 		r.maxEnd = e.end
 	}
-	if r.spans != nil && e.kind == 'E' && r.ctx.fired {
-		k := uint64(e.off)<<32 | uint64(e.end)
-		if tk, ok := r.spans[k]; ok && !r.seen[k] {
-			if r.seen == nil {
-				r.seen = map[uint64]bool{}
+	if r.items != nil && e.kind == 'E' {
+		// the item containing this event, if any (events spanning several items are
+		// parents of items and do not belong to one)
+		i := sort.Search(len(r.items), func(i int) bool { return r.items[i].end >= e.end }) // first item ending at or after
+		if i < len(r.items) && r.items[i].off <= e.off && e.end <= r.items[i].end {
+			a := r.acc[i]
+			if a == nil {
+				if r.acc == nil {
+					r.acc = map[int]*itemAcc{}
+				}
+				a = &itemAcc{}
+				r.acc[i] = a
 			}
-			r.seen[k] = true
-			r.matched++
-			// The first items reported after the cancellation may have been shifted
-			// before it (an item is reported when it is reduced); they do not count.
-			if r.matched > 2 {
-				r.shiftedLB += int(tk)
+			a.sig = evSig(a.sig, e.t, e.flags, e.off-r.items[i].off, e.end-r.items[i].off)
+			if !r.ctx.fired {
+				a.beforeFire = true
 			}
 		}
 	}
+}
+
+// shiftedAfterFire returns a lower bound of the tokens shifted after the canceller
+// fired: the tokens of the intact items that were parsed entirely after that instant
+// with exactly the events of an undamaged parse (the first two such items are left out:
+// tokens are shifted before the item they belong to is reported).
+func (r *recorder) shiftedAfterFire() (items, tokens int) {
+	idx := make([]int, 0, len(r.acc))
+	for i, a := range r.acc {
+		it := r.items[i]
+		if it.intact && it.sig != 0 && a.sig == it.sig && !a.beforeFire {
+			idx = append(idx, i)
+		}
+	}
+	sort.Ints(idx)
+	for k, i := range idx {
+		if k >= 2 {
+			tokens += r.items[i].toks
+		}
+	}
+	return len(idx), tokens
 }
 
 func (r *recorder) Event(t, flags, off, end int) {
@@ -416,15 +454,6 @@ func (engine) Run(src *sim.Src, log *sim.Log, res *sim.Result) {
 	}
 	broken := brk != 0
 	input, items := t.Gen(src, ntok, brk)
-	var spanTok map[uint64]int32
-	if items != nil {
-		spanTok = make(map[uint64]int32, len(items))
-		for _, it := range items {
-			if it.intact && it.toks > 0 {
-				spanTok[uint64(it.off)<<32|uint64(it.end)] = int32(it.toks)
-			}
-		}
-	}
 	ends := t.TokenEnds(input)
 	log.Printf("target=%s bytes=%d tokens=%d damage=%d stopAt=%d", t.Name, len(input), len(ends), brk, stopAt)
 
@@ -512,7 +541,7 @@ func (engine) Run(src *sim.Src, log *sim.Log, res *sim.Result) {
 		ek := errKind(src.Pick(4, 2, 2, 3, 2))
 
 		ctx := newSimCtx(ek, fireAt)
-		rec := &recorder{ctx: ctx, ref: rrec.ev, diverged: -1, stopAt: stopAt, spans: spanTok}
+		rec := &recorder{ctx: ctx, ref: rrec.ev, diverged: -1, stopAt: stopAt, items: items}
 		if rrec.ev == nil {
 			rec.ref = []event{}
 		}
@@ -608,20 +637,21 @@ func (engine) Run(src *sim.Src, log *sim.Log, res *sim.Result) {
 
 		// bounded stop, second oracle (valid and damaged inputs alike): intact items that
 		// were reported, as a whole, after the cancellation are tokens shifted after it.
-		if ctx.fired && rec.spans != nil {
-			if rec.shiftedLB > res.Probes["max-shifted-after-cancel-lower-bound"] {
+		if ctx.fired && items != nil {
+			nItems, shifted := rec.shiftedAfterFire()
+			if shifted > res.Probes["max-shifted-after-cancel-lower-bound"] {
 				if res.Probes == nil {
 					res.Probes = map[string]int{}
 				}
-				res.Probes["max-shifted-after-cancel-lower-bound"] = rec.shiftedLB
+				res.Probes["max-shifted-after-cancel-lower-bound"] = shifted
 			}
-			if rec.shiftedLB > B {
+			if shifted > B {
 				res.Fail("C29.bounded", "overrun:"+t.Name,
-					"target %s (%s input, %d tokens): after the context was cancelled (tick %d, %c) the parser still reduced %d intact top-level items holding %d tokens (bound %d) and returned %s",
-					t.Name, [...]string{"valid", "sparsely damaged", "periodically damaged"}[brk], len(ends), fireAt, fk, rec.matched-2, rec.shiftedLB, B, errString(err))
+					"target %s (%s input, %d tokens): after the context was cancelled (tick %d, %c) the parser still parsed %d intact top-level items, with exactly the events of an undamaged parse, holding %d tokens (bound %d), and returned %s",
+					t.Name, [...]string{"valid", "sparsely damaged", "periodically damaged"}[brk], len(ends), fireAt, fk, nItems-2, shifted, B, errString(err))
 				return
 			}
-			if !valid && rec.matched > 2 {
+			if !valid && nItems > 2 {
 				res.Probe("bounded:checked-on-damaged-input")
 			}
 		}
@@ -705,6 +735,9 @@ func (engine) Run(src *sim.Src, log *sim.Log, res *sim.Result) {
 }
 
 func main() {
+	if v, err := strconv.Atoi(os.Getenv("ZZ_CANCELSIM_B")); err == nil && v > 0 {
+		B = v
+	}
 	initTargets()
 	if len(targets) == 0 {
 		fmt.Fprintln(os.Stderr, "cancelsim: no targets")
